@@ -47,9 +47,20 @@ class Sym:
             return ("static", v["static"])
         if isinstance(v, dict) and all(not isinstance(x, (dict, list)) for x in v.values()):
             return ("constdict", tuple(sorted(v.items())))
+        if isinstance(v, list) and all(not isinstance(x, (dict, list)) for x in v) and len(v) <= 64:
+            return ("constlist", tuple(v))
         if isinstance(v, (dict, list)):
             return ("const", repr(v)[:80])
         if v is None and "def" in k:
+            if k.get("promoted") is not None and self.prog is not None:
+                pf = self.prog.fns.get("%s::promoted[%d]" % (k["def"], k["promoted"]))
+                if pf is not None and len(pf.blocks) <= 4:
+                    try:
+                        e = Sym(self.prog, pf, inline_depth=1).local(0)
+                        if e[0] in ("const", "constdict", "constlist", "call", "agg"):
+                            return e
+                    except RecursionError:
+                        pass
             return ("constref", k["def"], k.get("promoted"))
         return ("const", v)
 
@@ -983,6 +994,10 @@ def show(e, depth=0):
         return "(%s as %s)" % (show(e[1], depth + 1), e[2])
     if k == "fresh":
         return "new:" + e[1]
+    if k == "constlist":
+        return str(list(e[1]))
+    if k == "constdict":
+        return "{" + ",".join("%s:%s" % kv for kv in e[1]) + "}"
     if k == "select":
         return "(if %s then %s else %s)" % (show(e[1], depth + 1), show(e[2], depth + 1), show(e[3], depth + 1))
     return k
